@@ -219,12 +219,59 @@ Qed.
 (** the record after -t, after -p, and its table of fields *)
 Definition line1 (o : opt) (line0 : bytes) : bytes :=
   match o_trim o with Some k => trim_lit k (o_delim o) line0 | None => line0 end.
+Lemma trim_lit_length k p l : (length (trim_lit k p l) <= length l)%nat.
+Proof.
+  unfold trim_lit.
+  assert (HS : forall (p l r : bytes), strip_prefix p l = Some r -> (length r <= length l)%nat).
+  { induction p0 as [|x p0 IHp]; intros l0 r E; cbn [strip_prefix] in E; [injection E as <-; lia|].
+    destruct l0 as [|y l0]; [discriminate|]. destruct (N.eqb x y); [|discriminate]. apply IHp in E. cbn [length]. lia. }
+  assert (HF : forall p fuel l, (length (trim_left_fuel fuel p l) <= length l)%nat).
+  { intros p0 fuel. induction fuel as [|f IHf]; intros l0; cbn [trim_left_fuel]; [lia|].
+    destruct (strip_prefix p0 l0) as [r|] eqn:E; [|lia]. specialize (IHf r). apply HS in E. lia. }
+  assert (HL : forall p l, (length (trim_left p l) <= length l)%nat).
+  { intros p0 l0. unfold trim_left. destruct p0; [lia | apply HF]. }
+  assert (HR : forall p l, (length (trim_right p l) <= length l)%nat).
+  { intros p0 l0. unfold trim_right. rewrite rev_length. specialize (HL (rev p0) (rev l0)). rewrite rev_length in HL. exact HL. }
+  destruct k; [apply HL | apply HR | etransitivity; [apply HR | apply HL]].
+Qed.
+
+Lemma line1_length o line0 : (length (line1 o line0) <= length line0)%nat.
+Proof. unfold line1. destruct (o_trim o); [apply trim_lit_length | lia]. Qed.
+
 Definition compresses (o : opt) : bool :=
   o_compress o && (btype_eqb (o_btype o) BFields || btype_eqb (o_btype o) BLines).
 Definition line2 (o : opt) (l1 : bytes) : bytes :=
   if compresses o then compress_delimiter (o_delim o) l1 else l1.
 Definition fields_lit (o : opt) (l2 : bytes) : list mtch :=
   fields_of_matches (if o_greedy o then merge_adjacent (lit_matches (o_delim o) l2) else lit_matches (o_delim o) l2) l2.
+
+(** a record of n bytes has at most n + 2 fields *)
+Lemma find_iter_aux_count d : forall l skip pos, (length (find_iter_aux d skip pos l) <= S (length l))%nat.
+Proof.
+  induction l as [|x l IH]; intros skip pos; cbn [find_iter_aux length].
+  - destruct skip; [destruct d|]; cbn [length]; lia.
+  - destruct skip; [|specialize (IH skip (S pos)); lia].
+    destruct (starts_with d (x :: l)); cbn [length]; [specialize (IH (length d - 1)%nat (S pos)) | specialize (IH 0%nat (S pos))]; lia.
+Qed.
+
+Lemma merge_adjacent_from_count : forall ms cur, (length (merge_adjacent_from cur ms) <= S (length ms))%nat.
+Proof.
+  induction ms as [|m ms IH]; intros cur; cbn [merge_adjacent_from length]; [lia|].
+  destruct (Nat.eqb (fst m) (snd cur)); cbn [length]; [specialize (IH (fst cur, snd m)) | specialize (IH m)]; lia.
+Qed.
+
+Lemma gaps_from_count len : forall ms start, length (gaps_from start ms len) = S (length ms).
+Proof. induction ms as [|m ms IH]; intros start; cbn [gaps_from length]; [reflexivity|]. rewrite IH. reflexivity. Qed.
+
+Lemma fields_lit_count o l2 : (length (fields_lit o l2) <= length l2 + 2)%nat.
+Proof.
+  unfold fields_lit, fields_of_matches. destruct l2 as [|x l2']; [cbn; lia|]. rewrite gaps_from_count.
+  assert (H : (length (lit_matches (o_delim o) (x :: l2')) <= S (length (x :: l2')))%nat).
+  { unfold lit_matches, find_iter. rewrite map_length. apply find_iter_aux_count. }
+  destruct (o_greedy o); [|lia].
+  unfold merge_adjacent. destruct (lit_matches (o_delim o) (x :: l2')) as [|m ms]; [cbn; lia|].
+  pose proof (merge_adjacent_from_count ms m). cbn [length] in *. lia.
+Qed.
 
 Definition of_rres_cut (r : option rres) (x : rs (option unit * bytes)) : Prop :=
   match r with
@@ -238,12 +285,15 @@ Theorem tie_cut_str_literal : forall (o : opt) (line0 : bytes) (fields0 : list (
   o_regex o = None -> o_complement o = false -> o_json o = false -> o_btype o <> BChars ->
   Forall item_nz (items (o_bounds o)) ->
   Z.of_nat (length line0) + Z.of_nat (length (o_delim o)) <= usize_max ->
-  Z.of_nat (length (line1 o line0)) + Z.of_nat (length (o_delim o)) <= usize_max ->
   Z.of_nat (length (line2 o (line1 o line0))) + Z.of_nat (length (o_delim o)) <= usize_max ->
-  Z.of_nat (length (fields_lit o (line2 o (line1 o line0)))) <= i32_max ->
+  Z.of_nat (length (line2 o (line1 o line0))) + 2 <= i32_max ->
   of_rres_cut (cut_str o line0) (gen_cut_str line0 o fields0 buf0 [o_eol o]).
 Proof.
-  intros o line0 fields0 buf0 Hre Hc Hj Hb Hnz H0 H1 H2 Hf.
+  intros o line0 fields0 buf0 Hre Hc Hj Hb Hnz H0 H2 Hf'.
+  assert (Hf : Z.of_nat (length (fields_lit o (line2 o (line1 o line0)))) <= i32_max).
+  { pose proof (fields_lit_count o (line2 o (line1 o line0))). lia. }
+  assert (H1 : Z.of_nat (length (line1 o line0)) + Z.of_nat (length (o_delim o)) <= usize_max).
+  { pose proof (line1_length o line0). lia. }
   assert (Eb : btype_eqb (o_btype o) BChars = false) by (destruct (o_btype o); try reflexivity; exfalso; apply Hb; reflexivity).
   unfold cut_str. rewrite Hre. cbn [andb].
   cbv beta delta [gen_cut_str gen_cut_str_s1 gen_cut_str_s2] iota zeta. rewrite Hre. cbv iota beta.
